@@ -330,10 +330,19 @@ func runStress(dir string, seed uint64, tier string) {
 		// stopping the manager while transfers are active returns
 		stopDone := make(chan struct{})
 		go func() { _ = r.mgr.Stop(ctx); close(stopDone) }()
+		stopHung := false
 		if why := patientWait(stopDone, 10*time.Second, 50*time.Second); why != "" {
 			fail(round, "stress-stop-hangs", "Stop did not return within 60s while transfers were active\n"+why, label)
+			stopHung = true
 		}
 		close(stop)
+		if stopHung {
+			// the manager is wedged: whatever touches it next (the workers' calls in flight, unsubscribing) may never
+			// return either; the finding is recorded, the remaining rounds would only repeat it
+			atomic.StoreInt32(&hung, 1)
+			res.distinct(label)
+			break
+		}
 		wdone := make(chan struct{})
 		go func() { wg.Wait(); close(wdone) }()
 		if why := patientWait(wdone, 12*time.Second, 60*time.Second); why != "" {
@@ -341,8 +350,14 @@ func runStress(dir string, seed uint64, tier string) {
 				fail(round, "stress-workers-hang", "workers did not finish after Stop\n"+why, label)
 			}
 		}
-		unsub1()
-		unsub2()
+		unsubDone := make(chan struct{})
+		go func() { unsub1(); unsub2(); close(unsubDone) }()
+		if why := patientWait(unsubDone, 5*time.Second, 25*time.Second); why != "" {
+			fail(round, "stress-unsubscribe-hangs", "unsubscribing after Stop did not return\n"+why, label)
+			atomic.StoreInt32(&hung, 1)
+			res.distinct(label)
+			break
+		}
 		// the manager has stopped and nothing else is running: whatever still arrives (a request of a remote
 		// peer for a channel never seen, calls of an application that has not noticed yet) returns -- one
 		// after the other, so this part does not depend on the scheduler
